@@ -281,6 +281,79 @@ theorem legacy_or_drops_falsy :
   intro h
   cases h
 
+/-! ## the partial class of a model class is made from that very class -/
+/-- every stored partial was made from the class object it is stored under, and from a class of the
+program (`S`) -/
+def TabInv (t : Factory.Tab) (S : List Factory.ClsObj) : Prop :=
+  ∀ u p, Factory.lookup t.partials u = some p → p.src.uid = u ∧ p.src ∈ S
+
+theorem tabInv_empty (S : List Factory.ClsObj) : TabInv {} S := by
+  intro u p h
+  simp [Factory.lookup] at h
+
+theorem getPartial_inv {t : Factory.Tab} {S : List Factory.ClsObj} (h : TabInv t S)
+    {c : Factory.ClsObj} (hc : c ∈ S) : TabInv (Factory.getPartial t c).1 S := by
+  unfold Factory.getPartial
+  cases hl : Factory.lookup t.partials c.uid with
+  | some p => simpa using h
+  | none =>
+    intro u p hp
+    simp only [Factory.lookup] at hp
+    split_ifs at hp with hu
+    · cases hp
+      exact ⟨hu, hc⟩
+    · exact h u p hp
+
+theorem run_inv {S : List Factory.ClsObj} : (l : List Factory.ClsObj) → (t : Factory.Tab) → TabInv t S →
+    (∀ c ∈ l, c ∈ S) → TabInv (Factory.run t l) S
+  | [], t, h, _ => by simpa [Factory.run] using h
+  | c :: r, t, h, hs => by
+    simp only [Factory.run]
+    exact run_inv r _ (getPartial_inv h (hs c (by simp))) (fun d hd => hs d (by simp [hd]))
+
+/-- `get_partial(c).__partial_src__ is c` in every reachable state of the factory: whatever
+`get_partial` calls happened before (`TabInv`), for every class object `c` of a program whose class
+objects are told apart by their identity — in particular when several of them carry the same name. -/
+theorem get_partial_src {t : Factory.Tab} {S : List Factory.ClsObj} (h : TabInv t S)
+    (hid : ∀ a ∈ S, ∀ b ∈ S, a.uid = b.uid → a = b) {c : Factory.ClsObj} (hc : c ∈ S) :
+    (Factory.getPartial t c).2.src = c := by
+  unfold Factory.getPartial
+  cases hl : Factory.lookup t.partials c.uid with
+  | some p =>
+    obtain ⟨h1, h2⟩ := h _ _ hl
+    exact hid _ h2 _ hc h1
+  | none => rfl
+
+/-- … after any history of `get_partial` calls from the initial (empty) tables -/
+theorem get_partial_src_run (hist : List Factory.ClsObj) (c : Factory.ClsObj)
+    (hid : ∀ a ∈ c :: hist, ∀ b ∈ c :: hist, a.uid = b.uid → a = b) :
+    (Factory.getPartial (Factory.run {} hist) c).2.src = c :=
+  get_partial_src (run_inv hist {} (tabInv_empty _) (fun d hd => by simp [hd])) hid (by simp)
+
+/-- a second `get_partial` of the same class object returns the same partial class -/
+theorem get_partial_cached (t : Factory.Tab) (c : Factory.ClsObj) :
+    (Factory.getPartial (Factory.getPartial t c).1 c).2 = (Factory.getPartial t c).2 := by
+  unfold Factory.getPartial
+  cases hl : Factory.lookup t.partials c.uid with
+  | some p => simp [hl]
+  | none => simp [Factory.lookup]
+
+/-- two class objects with one name, the partial of the first created before the second exists:
+each gets its own partial -/
+example : let a : Factory.ClsObj := ⟨1, "m.Sample"⟩
+          let b : Factory.ClsObj := ⟨2, "m.Sample"⟩
+          (Factory.getPartial (Factory.run {} [a, b, a]) b).2.src = b ∧
+          (Factory.getPartial (Factory.run {} [a, b, a]) a).2.src = a := by decide
+
+/-- The table of forward references, in contrast, is keyed by the *name*: after the partial of a
+second class of the same name was created, a nested reference to the first class resolves to the
+partial of the second (a container class whose partial is created then gets the wrong field type).
+The harness keeps nested references away from names that are defined twice. -/
+theorem forwardref_by_name_is_ambiguous :
+    ∃ (a b : Factory.ClsObj), a ≠ b ∧
+      Factory.resolve (Factory.run {} [a, b]) a.name = some ⟨b⟩ := by
+  refine ⟨⟨1, "m.Sample"⟩, ⟨2, "m.Sample"⟩, by decide, by decide⟩
+
 /-! ## non-vacuity -/
 
 def isOk {α : Type} : Except Err α → Bool
